@@ -41,8 +41,12 @@ fn one_pass(
     let bytes = match write_cram(&repo, &header, recs, cfg) {
         Ok(b) => b,
         Err((step, f)) => {
-            // a refusal (`Err` of kind InvalidInput) is an accepted outcome for inputs the writer does
-            // not accept (undeclared read group); everything else is judged
+            // The statement quantifies over streams "the CRAM writer accepts, under every writer option
+            // [and] codec assignment": a write that returns `Err` means the stream is not accepted under
+            // that option (undeclared read group; a codec that has no encoding of this block, e.g. rANS
+            // 4x8 order 1 on fewer than 4 bytes). Refusals are counted, not judged. A *panic* is judged,
+            // and so is an `Err` under the default map other than the read-group refusal (the grammar
+            // only produces valid SAM records, which the default writer has no reason to refuse).
             if f.symptom.starts_with("err:InvalidInput:invalid_read_group_name") {
                 if first {
                     ch.tag("writer refused the stream (undeclared read group)");
@@ -50,9 +54,16 @@ fn one_pass(
                 }
                 return Ok(());
             }
+            if f.symptom.starts_with("err:") && cfg.target != Target::DefaultMap {
+                if first {
+                    ch.tag("writer refused the stream under the chosen encoder (Err, not judged)");
+                    ch.obs(format!("refused {} {} {}", cfg.target.name(), cfg.enc_class(), f.symptom));
+                }
+                return Ok(());
+            }
             return Err((
                 fp("write", cfg, &f.symptom),
-                "the writer accepts the stream (or refuses an undeclared read group with InvalidInput)".into(),
+                "the writer accepts the stream or refuses it with Err (no panic; no refusal of a valid stream under the default map)".into(),
                 format!("{} (during {step})", f.detail),
             ));
         }
